@@ -335,9 +335,9 @@ def run(ctx, replay=None):
                                              'trusted_base': common.TRUSTED_BASE, 'explanation': 'build failed'}, [])
         return
     po = common.proof_obligations(ctx.prop)
-    ck = common.coqchk(ctx.prop) if ctx.tier == 'thorough' else None
-    if ck is not None and not ck['ok']:
-        path = common.write_replay(ctx, 'coqchk', {'kind': 'coqchk-failed', 'summary': ck['summary']})
+    chk_res = common.coqchk(ctx.prop) if ctx.tier == 'thorough' else None
+    if chk_res is not None and not chk_res['ok']:
+        path = common.write_replay(ctx, 'coqchk', {'kind': 'coqchk-failed', 'summary': chk_res['summary']})
         common.violation(ctx, path, found_input=False)
     bad = common.hygiene()
     n_obl = len(po['theorems'])
@@ -446,7 +446,7 @@ def run(ctx, replay=None):
             "z3's own soundness under each option and logic is not modelled",
             'recording subclasses of z3.Solver/z3.Optimize/z3.SolverFor (harness/solverproxy.py)',
             'Print Assumptions: ' + '; '.join('%s: %s' % (t, po['assumptions'].get(t, 'NOT PRINTED')) for t in po['theorems'])],
-        'coqchk': ({'axioms': ck['axioms'], 'ok': ck['ok']} if ck else 'thorough tier only'), 'theorems': po['theorems'], 'hygiene_hits': bad,
+        'coqchk': ({'axioms': chk_res['axioms'], 'ok': chk_res['ok']} if chk_res else 'thorough tier only'), 'theorems': po['theorems'], 'hygiene_hits': bad,
         'evaluations': len(flat), 'distinct_nontrivial': distinct,
         'rule': 'one evaluation = one (program, solver configuration) pair; programs from seed %d (small optimisation problems + the objectives profile for C15, '
                 'deliberately conflicting problems for C19); distinct by (program text, configuration)' % ctx.seed,
